@@ -26,7 +26,7 @@ def fast_payload(tag):
     return bytes([0x02, 0x00]) + bytes(((tag * 31 + 7 * i) % 250) + 1 for i in range(14))
 
 
-def events():
+def events(deep=False):
     ev = {}
     hd = bytes.fromhex("0010270000ff7ffd")
     ev["A"] = ("tcp", wire.ebyte_packet(wire.can_id(2, 127250, 1, 255), hd))
@@ -59,6 +59,19 @@ def events():
     p[19] ^= 0x11
     ev["bad_usb"] = ("usb", bytes(p))
     ev["short_usb"] = ("usb", bytes(p[:12]))
+    if deep:
+        # the same fast-packet stream reached through other entry points (state is shared across formats),
+        # a second stream from another source, and a valid single frame through the text entry points
+        for c in (0, 1):
+            fr = wire.fast_frames(c, fast_payload(c))
+            ev[f"f{c}_1_usb"] = ("usb", wire.usb_packet(ident, fr[1]))
+            ev[f"f{c}_2_yd"] = ("yd", wire.yd_line(ident, fr[2]))
+        ident2 = wire.can_id(3, FAST_PGN, 2, 255)
+        fr2 = wire.fast_frames(1, fast_payload(7))
+        for i, f in enumerate(fr2):
+            ev[f"s2_{i}"] = ("tcp", wire.ebyte_packet(ident2, f))
+        ev["A_yd"] = ("yd", wire.yd_line(wire.can_id(2, 127250, 1, 255), hd))
+        ev["A_acti"] = ("acti", wire.actisense_line(2, 255, 1, 127250, hd))
     return ev
 
 
@@ -132,8 +145,8 @@ def norm(res):
     return res[1] if res[0] == "msg" else None
 
 
-def run_bfs(max_states):
-    evs = events()
+def run_bfs(max_states, deep=False):
+    evs = events(deep)
     names = list(evs)
     pr = probes()
     fresh = {}
@@ -236,14 +249,14 @@ def config_checks():
 
 
 def run(ctx):
-    res, nprobes = run_bfs(60000 if ctx.thorough else 20000)
+    res, nprobes = run_bfs(60000 if ctx.thorough else 20000, ctx.thorough)
     n_cfg, cvios = config_checks()
     vios = res.violations + cvios
     cov = {
         "states": res.states, "transitions": res.transitions, "traces_validated_against_impl": res.transitions * 2 + nprobes,
         "evaluations": res.transitions + nprobes + n_cfg, "distinct_nontrivial": res.nontrivial,
         "distinct_outcomes": 1 + len({v["kind"] for v in vios}),
-        "rule": "BFS states of (decoder X, decoder Y, decoder R that never sees inputs X rejected); every transition feeds one of 26 events to X, Y and P (another configuration) (and to R unless X rejected it) and runs 3 probes on a deep copy of X; "
+        "rule": "BFS states of (decoder X, decoder Y, decoder R that never sees inputs X rejected); every transition feeds one of 26 (thorough: 37) events to X, Y and P (another configuration) (and to R unless X rejected it) and runs 3 probes on a deep copy of X; "
                 "non-trivial = X holds at least one partly received fast-packet message",
         "samples": [{"history": h} for h in res.samples[:2]] or [{"history": []}],
         "probes_run": nprobes, "max_depth": res.max_depth, "configuration_checks": n_cfg,
